@@ -68,8 +68,10 @@ func TestWorker(t *testing.T) {
 	if err != nil {
 		panic(err)
 	}
-	if in, ok := prop.(interface{ Init(*testing.T) }); ok {
-		in.Init(t)
+	if in, ok := prop.(interface {
+		Init(*testing.T, uint64, string)
+	}); ok {
+		in.Init(t, job.Seed, job.Tier)
 	}
 	start := time.Now()
 	if job.Replay != "" {
@@ -127,7 +129,11 @@ func TestWorker(t *testing.T) {
 		}
 		if vd.NonTrivial {
 			res.Stats.NonTrivial++
-			keys[mix(mix(hashBytes(caseJSON(c)), x.SchedSig), 0)] = struct{}{}
+			if len(keys) < maxKeysPerWorker {
+				keys[mix(mix(hashBytes(caseJSON(c)), x.SchedSig), 0)] = struct{}{}
+			} else {
+				res.Stats.Extra["distinct_keys_capped_lower_bound"] = 1
+			}
 		}
 		if len(res.Samples) < 3 && vd.Sample != nil && (vd.NonTrivial || run > 40*job.Workers) {
 			res.Samples = append(res.Samples, vd.Sample)
@@ -161,6 +167,10 @@ func TestWorker(t *testing.T) {
 		f.Close()
 	}
 }
+
+// maxKeysPerWorker bounds the memory of the distinctness measure; beyond it
+// distinct_nontrivial is a lower bound (flagged in evidence).
+const maxKeysPerWorker = 400000
 
 func matchKnown(known []KnownFinding, prop string, v *Violation) *KnownFinding {
 	for i := range known {
